@@ -64,6 +64,9 @@ class CacheWorld(object):
     self.conns = []
     self.stop_step = None
     self.stopping = False
+    self.window_left = None      # operations left inside an open shutdown window
+    self.window_d = None
+    self.stop_window_done = False
     self.last_store = {}       # (m, ts) -> model step of last accepted store
     self.pass_remaining = set()
     self.pass_active = False
@@ -91,9 +94,16 @@ class CacheWorld(object):
       s.trace_file(mod.__file__, fid)
     if getattr(w, 'writer_mod', None) is not None:
       s.trace_file(w.writer_mod.__file__, 'w')
+    if self.settings.CARBON_METRIC_INTERVAL:
+      # the reporting tick (reactor thread) shares the counters with the writer thread
+      s.trace_file(w.instrumentation.__file__, 'i')
+      # its functions are two or three lines long and only matter when the other thread is
+      # runnable at that very moment (a pre-emption with nobody else runnable is void)
     s.finish = self.finish
     s.p_lock = self.plan.get('p_lock')
     s.file_p = dict(self.plan.get('file_p') or {})
+    if self.settings.CARBON_METRIC_INTERVAL and not self.plan.get('pct_points'):
+      s.file_p.setdefault('i', 0.4)
     s.p_unlocked = dict(self.plan.get('p_unlocked') or {})
     for pat, pp in (self.plan.get('hot') or []):
       s.heat(pat, pp)
@@ -177,8 +187,11 @@ class CacheWorld(object):
         me.note_reload('storage-aggregation.conf', me.agg_versions)
       for svc in w.root.services:
         if type(svc).__name__ == 'WriterService':
-          svc.storage_reload_task.f = rs
-          svc.aggregation_reload_task.f = ra
+          # (observation only -- the oracle follows its own clock; a daemon that organises
+          # its reload timers differently is simply not observed here)
+          if hasattr(svc, 'storage_reload_task') and hasattr(svc, 'aggregation_reload_task'):
+            svc.storage_reload_task.f = rs
+            svc.aggregation_reload_task.f = ra
 
   def ref_reload_tick(self):
     """The documented behaviour: both schema files are re-read every 60 seconds.  The
@@ -393,6 +406,7 @@ class CacheWorld(object):
       self.ctx.violation('C02', 'size-drift', 'lock-release',
                          'cache.size=%r but %r datapoints held' % (cache.size, held))
     if op is None:
+      self.check_bound('lock-release')     # somebody other than store/pop/drain took the lock
       return
     real = {m: dict(v) for m, v in cache.items() if v}
     if op.kind == 'drain' and op.popped is None:
@@ -714,7 +728,28 @@ class CacheWorld(object):
       self.ctx.probe('stop_while_writer_active')
     if self.model.size:
       self.ctx.probe('stop_with_cached_data')
+    n = self.plan.get('stop_window')
+    if n and not self.stop_window_done:
+      # a 'before shutdown' trigger that takes a while (in a real daemon: the listening
+      # ports' stopListening() Deferreds): every service has been told to stop, established
+      # connections keep delivering until the trigger's Deferred fires, n operations later
+      from twisted.internet.defer import Deferred
+      self.window_d = Deferred()
+      self.window_left = int(n)
+      self.r.addSystemEventTrigger('before', 'shutdown', lambda: self.window_d)
+      self.ctx.fault('shutdown_window_with_open_connections')
     self.r.stop()
+    if self.window_left is None:
+      self.ctx.log.add('stop-end')
+      self.check_after_stop()
+
+  def close_stop_window(self):
+    if self.window_left is None:
+      return
+    self.window_left = None
+    self.stop_window_done = True
+    d, self.window_d = self.window_d, None
+    d.callback(None)          # the 'during' and 'after' phases run from here
     self.ctx.log.add('stop-end')
     self.check_after_stop()
 
@@ -794,14 +829,16 @@ class CacheWorld(object):
     low = self.low_wm
     if not self.settings.USE_FLOW_CONTROL:
       return
-    size = self.cache.size
+    # the number of datapoints really held (the reference model's count), not the
+    # cache's own size counter: a counter that drifted upwards must not excuse the pause
+    size = self.model.size
     if st.metricReceiversPaused or st.cacheTooFull:
       self.ctx.probe('paused_at_some_point_end')
     if size < low:
       paused = [c['id'] for c in self.conns if not c['t'].disconnected and not c['t'].reading]
       if st.metricReceiversPaused or paused:
         self.ctx.violation('C09', 'stuck-paused-cache', 'quiescence',
-                           'quiescent with cache.size=%r < low watermark %r but '
+                           'quiescent with %r datapoints held < low watermark %r but '
                            'metricReceiversPaused=%r, cacheTooFull=%r, paused receiver '
                            'connections=%r' % (size, low, st.metricReceiversPaused,
                                                st.cacheTooFull, paused))
@@ -1109,9 +1146,15 @@ class CacheWorld(object):
     for i, op in enumerate(plan['ops']):
       if plan.get('wstart', 0) == i and i:
         self.start_writer()
+      in_window = self.window_left is not None
       self.do_op(op)
-      if self.stopping:
+      if in_window and self.window_left is not None:
+        self.window_left -= 1
+        if self.window_left <= 0:
+          self.close_stop_window()
+      if self.stopping and self.window_left is None:
         break
+    self.close_stop_window()
     self.start_writer()
     self.w_steps_at_ops_end = self.s.tsteps.get('W', 0)
     if not self.stopping:
